@@ -46,6 +46,7 @@ func runC19(c *Ctx) {
 	})
 	checkCurrentVersionPropagatesReadFailure(c, "C19-R1")
 	checkVersionWidthsAgree(c, "C19-R1")
+	checkLatestVersionIsATableNumber(c, "C19-R1")
 	up := c.P.Func("walletdb/migration", "", "upgrade")
 	vta := c.P.Func("walletdb/migration", "", "VersionsToApply")
 	glv := c.P.Func("walletdb/migration", "", "GetLatestVersion")
